@@ -25,18 +25,24 @@ import resolvegen
 import resolvelib as rl
 
 ID = 'C06'
-LEAN_MODULES = ['Yaql.Props.C06', 'Yaql.Props.C06Reg']
+LEAN_MODULES = ['Yaql.Props.C06', 'Yaql.Props.C06Reg', 'Yaql.Props.C06Ctx']
 P = 'Yaql.Props.C06.'
 REQUIRED_THEOREMS = [P + n for n in (
     'perm_invariant', 'spec_perm_invariant', 'old_order_dependent', 'old_tuple_order_dependent',
     'visible_perm', 'stage_perm', 'choose_perm')] + [
     'Yaql.Props.C06Reg.' + n for n in (
         'register_perm_invariant', 'family_register_perm', 'resolve_register_perm_invariant', 'exclusive_any',
-        'last_registration_wins_order_dependent')]
+        'last_registration_wins_order_dependent')] + [
+    'Yaql.Props.C06Ctx.' + n for n in (
+        'run_nodup', 'ownLayerL_members_perm', 'resolve_members_perm_invariant',
+        'resolve_child_of_members_perm_invariant', 'resolve_multi_register_perm_invariant',
+        'keyed_merge_order_dependent')]
 TRUSTED = ['resolvelib.ListContext: the enumeration order of a layer is what its get_functions returns',
            'resolvelib.enc_fd / enc_arg (encoding of the real objects for the model)',
            'the reading of exclusive=True: a layer is exclusive for a name when ANY registration of that name in it said '
-           'so (contexts.py: _exclusive_funcs is a set of names that register_function only adds to)']
+           'so (a later non-exclusive registration does not take the flag back)',
+           'resolvelib.Family: the same family held by plain Contexts, by MultiContexts (union of the members) and by '
+           'LinkedContexts; the enumeration order of a MultiContext layer is controlled through its members']
 ASSUMPTIONS = ['the enumeration order of one context is the same for the two passes of one choose_overload call '
                '(true for a set that is not mutated in between)']
 
